@@ -423,7 +423,7 @@ func endToEnd(c *hc.Ctx) error {
 		sig := fmt.Sprintf("e2e %s case=%d", p.name, i)
 		c.Eval(sig, true)
 		c.Count("e2e." + p.name)
-		cl.SetDeadline(time.Now().Add(20 * time.Second))
+		cl.SetDeadline(time.Now().Add(10 * time.Minute))
 		ob := obfuscated2.NewObfuscated2(r, cl)
 		if err := ob.Handshake(p.tag, hc.Pick(r, 2, -2, 10004), mtproxy.Secret{}); err != nil {
 			return err
@@ -455,7 +455,7 @@ func endToEnd(c *hc.Ctx) error {
 			<-errc
 			continue
 		}
-		ctx, cancel := context.WithTimeout(context.Background(), 20*time.Second)
+		ctx, cancel := context.WithTimeout(context.Background(), 10*time.Minute)
 		bad := ""
 		for j := range sent {
 			var b bin.Buffer
